@@ -17,6 +17,7 @@
 
 use crate::util::*;
 use metrics::{Counter, Gauge, Histogram, Key, KeyName, Label, Metadata, Recorder, SharedString, Unit};
+use metrics_tracing_context::label_filter::{Allowlist, IncludeAll};
 use metrics_tracing_context::{LabelFilter, Labels, MetricsLayer, TracingContextLayer};
 use metrics_util::layers::Layer;
 use std::collections::{BTreeMap, BTreeSet};
@@ -48,6 +49,17 @@ macro_rules! shape {
     };
 }
 
+/// the same with string-literal field names (anything that is not an identifier)
+macro_rules! shape_lit {
+    ($p:ident, $v:ident; $($k:literal = $i:literal),*) => {
+        match $p {
+            Par::Ctx => tracing::span!(tracing::Level::INFO, "s", $($k = $v[$i]),*),
+            Par::Root => tracing::span!(parent: None::<tracing::Id>, tracing::Level::INFO, "s", $($k = $v[$i]),*),
+            Par::Of(ps) => tracing::span!(parent: ps, tracing::Level::INFO, "s", $($k = $v[$i]),*),
+        }
+    };
+}
+
 const SHAPES: &[&[&str]] = &[
     &[],
     &["a"],
@@ -67,6 +79,12 @@ const SHAPES: &[&[&str]] = &[
     &["w00", "w01", "w02", "w03", "w04", "w05", "w06", "w07", "w08", "w09", "w10", "w11", "w12", "w13", "w14", "w15", "w16", "w17", "w18", "w19", "w20", "w21", "w22", "w23", "w24", "w25", "w26", "w27", "w28", "w29", "w30", "w31"],
     &["A", "ab", "k", "a"],
     &["k", "k.x", "ab", "a0"],
+    // names outside ASCII: byte length and character count differ (é, ñ: 2 bytes; Cyrillic: 2; CJK: 3; 🦀: 4;
+    // "e\u{301}" = decomposed é: 2 characters, 3 bytes)
+    &["région", "env"],
+    &["地域", "a"],
+    &["ключ", "région", "b", "ñ"],
+    &["🦀", "re\u{301}gion", "région", "k.ü", "地"],
 ];
 
 /// shapes with 20 or more fields: two of them nested (or the 32-field one alone) push a span's map past 28
@@ -74,6 +92,8 @@ const SHAPES: &[&[&str]] = &[
 const WIDE_SHAPES: &[usize] = &[12, 13, 14, 15];
 /// shapes whose field names are near misses of each other and of the allow-list names (case, prefix, dot)
 const NEAR_SHAPES: &[usize] = &[16, 17];
+/// shapes whose field names contain multi-byte characters
+const UNI_SHAPES: &[usize] = &[18, 19, 20, 21];
 
 #[allow(unused_variables)]
 fn make_span(shape: usize, p: Par<'_>, v: &[&dyn Value]) -> Span {
@@ -96,6 +116,10 @@ fn make_span(shape: usize, p: Par<'_>, v: &[&dyn Value]) -> Span {
         15 => shape!(p, v; w00 = 0, w01 = 1, w02 = 2, w03 = 3, w04 = 4, w05 = 5, w06 = 6, w07 = 7, w08 = 8, w09 = 9, w10 = 10, w11 = 11, w12 = 12, w13 = 13, w14 = 14, w15 = 15, w16 = 16, w17 = 17, w18 = 18, w19 = 19, w20 = 20, w21 = 21, w22 = 22, w23 = 23, w24 = 24, w25 = 25, w26 = 26, w27 = 27, w28 = 28, w29 = 29, w30 = 30, w31 = 31),
         16 => shape!(p, v; A = 0, ab = 1, k = 2, a = 3),
         17 => shape!(p, v; k = 0, k.x = 1, ab = 2, a0 = 3),
+        18 => shape!(p, v; région = 0, env = 1),
+        19 => shape!(p, v; 地域 = 0, a = 1),
+        20 => shape!(p, v; ключ = 0, région = 1, b = 2, ñ = 3),
+        21 => shape_lit!(p, v; "🦀" = 0, "re\u{301}gion" = 1, "région" = 2, "k.ü" = 3, "地" = 4),
         _ => unreachable!(),
     }
 }
@@ -231,6 +255,8 @@ struct Program {
     /// false: the subscriber is a bare `registry()` without a `MetricsLayer`
     layer: bool,
     ops: Vec<POp>,
+    /// direct calls of the filter's `should_include_label(metric name, label key, label value)`, made after the ops
+    probes: Vec<(String, String, String)>,
 }
 
 fn code_sum(s: &str) -> u64 {
@@ -381,6 +407,16 @@ struct Ans {
     emitted: Vec<Logged>,
     /// Close: the registry no longer knows the span's id right after the handle was dropped
     closed: Option<bool>,
+    /// New: the registry slot the span lives in
+    slot: Option<u64>,
+}
+
+/// `Registry` ids are `sharded_slab` pool indices + 1: the low 51 bits (38 of page address, 13 of shard / thread id,
+/// `DefaultConfig`) name the slot, the 13 bits above them count how often the slot has been handed out.  (Were the
+/// layout different, a wider slot part would only make reuse go unnoticed, never report a live slot as taken twice.)
+const SLOT_BITS: u32 = 51;
+fn slot_of(span: &Span) -> Option<u64> {
+    span.id().map(|id| (id.into_u64() - 1) & ((1u64 << SLOT_BITS) - 1))
 }
 
 fn span_map(dispatch: &Dispatch, span: &Span) -> Option<Vec<(String, String)>> {
@@ -416,6 +452,7 @@ fn exec_op(sh: &Shared, op: &POp) -> Ans {
                 make_span(*shape, p, &refs)
             };
             ans.map = span_map(&sh.dispatch, &span);
+            ans.slot = slot_of(&span);
             sh.spans.lock().unwrap().push(Some(span));
         }
         POp::Rec { id, field, val, .. } => {
@@ -488,6 +525,15 @@ fn build_recorder(filter: &FilterSpec, log: Arc<Mutex<Vec<Logged>>>) -> Box<dyn 
         FilterSpec::All => Box::new(TracingContextLayer::all().layer(inner)),
         FilterSpec::Allow(names) => Box::new(TracingContextLayer::only_allow(names.iter()).layer(inner)),
         FilterSpec::Custom(m, r) => Box::new(TracingContextLayer::new(CustomFilter { m: *m, r: *r }).layer(inner)),
+    }
+}
+
+/// the crate's own filter objects, for calling `should_include_label` directly
+fn build_filter(filter: &FilterSpec) -> Box<dyn LabelFilter> {
+    match filter {
+        FilterSpec::All => Box::new(IncludeAll),
+        FilterSpec::Allow(names) => Box::new(Allowlist::new(names.iter())),
+        FilterSpec::Custom(m, r) => Box::new(CustomFilter { m: *m, r: *r }),
     }
 }
 
@@ -596,6 +642,10 @@ fn run_logged(prog: &Program, out: &mut Out) -> (Vec<Option<usize>>, Vec<Option<
     let mut emitted: Vec<Option<Vec<(String, String)>>> = vec![None; prog.ops.len()];
     let mut fails: Vec<(String, String)> = vec![];
     let mut nontrivial = false;
+    let mut uni_admitted = false;
+    let mut slot_owner: BTreeMap<u64, usize> = BTreeMap::new();
+    let mut closed_spans: BTreeSet<usize> = BTreeSet::new();
+    let mut reused = 0usize;
     let mut lines: Vec<(String, String)> = vec![];
     execute(prog, |i, op, a| match op {
         POp::New { t, parent, shape, vals } => {
@@ -605,7 +655,18 @@ fn run_logged(prog: &Program, out: &mut Out) -> (Vec<Option<usize>>, Vec<Option<
                 ParSpec::Root => "r".to_string(),
                 ParSpec::Of(p) => p.to_string(),
             };
-            let line = format!("tracing new {} {} {}", t, ptok, fields_tok(names, vals));
+            let mut line = format!("tracing new {} {} {}", t, ptok, fields_tok(names, vals));
+            if let (true, Some(slot)) = (prog.layer, a.slot) {
+                // the slot the real registry chose goes to the model, which stores the labels in it
+                line.push_str(&format!(" {}", slot));
+                if let Some(prev) = slot_owner.insert(slot, hists.len()) {
+                    reused += 1;
+                    if !closed_spans.contains(&prev) {
+                        fails.push(("the registry handed a new span the slot of a span that is still alive".into(),
+                                    format!("op {} slot {} previous span {}", i, slot, prev)));
+                    }
+                }
+            }
             let map = a.map.clone();
             lines.push((line, format!("{} {}", hists.len(), map.as_ref().map(|m| pairs(m)).unwrap_or_else(|| "no-labels".into()))));
             let p = match parent {
@@ -658,6 +719,7 @@ fn run_logged(prog: &Program, out: &mut Out) -> (Vec<Option<usize>>, Vec<Option<
             lines.push((format!("tracing exit {} {}", t, id), opt_idx(a.cur_after)));
         }
         POp::Close { t, id } => {
+            closed_spans.insert(*id);
             lines.push((format!("tracing close {} {}", t, id), (if a.closed == Some(true) { "closed" } else { "alive" }).to_string()));
         }
         POp::Emit { t, how, name, labels } => {
@@ -727,6 +789,9 @@ fn run_logged(prog: &Program, out: &mut Out) -> (Vec<Option<usize>>, Vec<Option<
                 let mut expect: BTreeMap<String, String> =
                     visible.iter().filter(|(k, v)| prog.filter.admits(name, k, v)).map(|(k, v)| (k.clone(), v.clone())).collect();
                 let n_admitted = expect.len();
+                if matches!(prog.filter, FilterSpec::Allow(_)) && expect.keys().any(|k| !k.is_ascii()) {
+                    uni_admitted = true;
+                }
                 let mut overlap = false;
                 for (k, v) in labels {
                     overlap |= expect.contains_key(k);
@@ -754,6 +819,55 @@ fn run_logged(prog: &Program, out: &mut Out) -> (Vec<Option<usize>>, Vec<Option<
     });
     for (l, a) in &lines {
         out.op(l, a);
+    }
+    for _ in 0..reused {
+        out.count("new: the span got the registry slot of a span that closed earlier (id reuse)");
+    }
+    if uni_admitted {
+        out.count("programs where an allow-list admitted a visible non-ASCII span field");
+    }
+    if let FilterSpec::Allow(names) = &prog.filter {
+        let max_chars = names.iter().map(|n| n.chars().count()).max().unwrap_or(0);
+        let min_chars = names.iter().map(|n| n.chars().count()).min().unwrap_or(0);
+        if names.iter().any(|n| n.len() > max_chars) {
+            out.count("allow-list: some name has more bytes than the longest name has characters");
+        }
+        if names.len() == 1 {
+            out.count("allow-list: single name");
+        }
+        if names.iter().any(|n| n.len() < min_chars) {
+            out.count("allow-list: unreachable");
+        }
+    }
+    // the filter decision on its own, for label names no compiled span shape carries
+    if !prog.probes.is_empty() {
+        let f = build_filter(&prog.filter);
+        for (name, k, v) in &prog.probes {
+            let got = f.should_include_label(&KeyName::from(name.clone()), &Label::new(k.clone(), v.clone()));
+            out.op(&format!("tracing filt {} {} {}", hexs(name), hexs(k), hexs(v)), if got { "1" } else { "0" });
+            let want = prog.filter.admits(name, k, v);
+            if got != want {
+                let why = match &prog.filter {
+                    FilterSpec::Allow(names) => format!(
+                        "allow-list {:?} (bytes/chars of each: {:?}); label name {:?} is {} bytes, {} chars",
+                        names,
+                        names.iter().map(|n| (n.len(), n.chars().count())).collect::<Vec<_>>(),
+                        k,
+                        k.len(),
+                        k.chars().count()
+                    ),
+                    other => format!("filter {:?}", other),
+                };
+                fails.push((
+                    if want { "the label filter rejected a label it must admit (allow-list = exact name membership)" } else { "the label filter admitted a label it must reject" }.into(),
+                    format!("should_include_label(metric {:?}, label {:?}={:?}) = {}; {}", name, k, v, got, why),
+                ));
+            }
+            out.count(if got { "probe:admitted" } else { "probe:rejected" });
+            if !k.is_ascii() {
+                out.count("probe:non-ASCII label name");
+            }
+        }
     }
     out.count(match max_map {
         0..=4 => "widest span map: 0-4",
@@ -814,7 +928,7 @@ fn check_thread_independence(prog: &Program, resolved: &[Option<usize>], emitted
             }
         }
     }
-    let proj = Program { filter: prog.filter.clone(), threads: prog.threads, layer: prog.layer, ops };
+    let proj = Program { filter: prog.filter.clone(), threads: prog.threads, layer: prog.layer, ops, probes: vec![] };
     let mut got = vec![];
     execute(&proj, |_, op, a| {
         if let POp::Emit { .. } = op {
@@ -833,10 +947,17 @@ fn check_thread_independence(prog: &Program, resolved: &[Option<usize>], emitted
 // ---------------------------------------------------------------------------------------------
 // generators
 
-const LABEL_NAMES: &[&str] = &["a", "b", "c", "k.x", "svc", "env", "zz", "a00", "b07", "w31", "A", "ab", "k", "a0"];
+const LABEL_NAMES: &[&str] =
+    &["a", "b", "c", "k.x", "svc", "env", "zz", "a00", "b07", "w31", "A", "ab", "k", "a0", "région", "地域", "ñ", "🦀", "region", "ключ"];
 /// allow-list entries: the field names, and near misses of them (case, prefix, extension, blank, dot, empty)
 const ALLOW_NAMES: &[&str] =
     &["a", "b", "c", "k.x", "zz", "svc", "A", "ab", "k", "k.", "a ", " a", "a0", "a00", "a0", "b07", "w3", "w31", "B", "K.X", ""];
+/// allow-list entries outside ASCII: the field names of the UNI shapes and near misses of them (undecorated letter,
+/// decomposed form, other case, prefix, a different name of the same byte length / of the same character count)
+const UNI_ALLOW_NAMES: &[&str] = &[
+    "région", "region", "re\u{301}gion", "Région", "régio", "régions", "地域", "地", "域地", "地域名", "ключ", "КЛЮЧ", "клю", "ñ", "n", "n\u{303}",
+    "🦀", "🦀🦀", "k.ü", "k.u", "env", "ÿÿÿ", "ab\u{e9}", "\u{e9}",
+];
 const METRIC_NAMES: &[&str] = &["m", "reqs", "lat", "login_attempts", "a"];
 const STR_VALUES: &[&str] = &["x", "y", "", "ferris", "true", "42", "-1", "a", "\"q\"", "é", "日本"];
 
@@ -896,19 +1017,93 @@ fn g_current(st: &[(usize, bool)]) -> Option<usize> {
     st.iter().rev().find(|(_, d)| !*d).map(|(i, _)| *i)
 }
 
+/// an allow-list: any size from a single name to most of the tables, ASCII only / mixed / non-ASCII only, now and
+/// then a generated name; which name is the longest (in bytes, in characters) and which the shortest varies freely
+fn gen_allowlist(r: &mut Rng) -> Vec<String> {
+    let mut names: Vec<String> = vec![];
+    let (ascii_den, uni_den) = *r.pick(&[(3usize, 0usize), (3, 0), (3, 4), (6, 3), (0, 3), (0, 6), (12, 12), (2, 2)]);
+    for n in ALLOW_NAMES {
+        if ascii_den > 0 && r.chance(1, ascii_den) {
+            names.push(n.to_string());
+        }
+    }
+    for n in UNI_ALLOW_NAMES {
+        if uni_den > 0 && r.chance(1, uni_den) {
+            names.push(n.to_string());
+        }
+    }
+    if r.chance(1, 5) {
+        // a short list: one to three names from anywhere
+        names.clear();
+        for _ in 0..r.range(1, 3) {
+            names.push(if r.chance(1, 2) { r.pick_str(UNI_ALLOW_NAMES).to_string() } else { r.pick_str(ALLOW_NAMES).to_string() });
+        }
+    }
+    if r.chance(1, 6) {
+        names.push(wild_string(r, false));
+    }
+    if r.chance(1, 8) {
+        // the same name twice
+        if let Some(n) = names.first().cloned() {
+            names.push(n);
+        }
+    }
+    names
+}
+
+/// a near miss of `n`: one character fewer / more / replaced, by a character of the same or of another byte length
+fn mutate_name(r: &mut Rng, n: &str) -> String {
+    let mut cs: Vec<char> = n.chars().collect();
+    const POOL: &[char] = &['a', 'z', '.', ' ', '\u{e9}', '\u{f1}', '\u{301}', '\u{43a}', '\u{5730}', '\u{1f980}', 'E', '\u{c9}'];
+    match r.below(5) {
+        0 => {
+            cs.pop();
+        }
+        1 => cs.push(*r.pick(POOL)),
+        2 if !cs.is_empty() => {
+            let i = r.below(cs.len());
+            cs[i] = *r.pick(POOL);
+        }
+        3 if !cs.is_empty() => {
+            cs.remove(0);
+        }
+        _ => cs.insert(0, *r.pick(POOL)),
+    }
+    cs.into_iter().collect()
+}
+
+/// labels to hand to the filter directly: listed names (which must be admitted whatever else is on the list), near
+/// misses of them, the field names of the shapes, generated strings
+fn gen_probes(r: &mut Rng, filter: &FilterSpec) -> Vec<(String, String, String)> {
+    let n = r.range(2, 8);
+    let mut v = vec![];
+    for _ in 0..n {
+        let key = match (filter, r.weighted(&[6, 4, 3, 2])) {
+            (FilterSpec::Allow(names), 0) if !names.is_empty() => r.pick(names).clone(),
+            (FilterSpec::Allow(names), 1) if !names.is_empty() => {
+                let base = r.pick(names).clone();
+                mutate_name(r, &base)
+            }
+            (_, 0) | (_, 1) | (_, 2) => {
+                if r.chance(1, 2) {
+                    r.pick_str(UNI_ALLOW_NAMES).to_string()
+                } else {
+                    r.pick_str(LABEL_NAMES).to_string()
+                }
+            }
+            _ => wild_string(r, false),
+        };
+        let name = if r.chance(1, 6) { wild_string(r, true) } else { r.pick_str(METRIC_NAMES).to_string() };
+        v.push((name, key, gen_str_value(r)));
+    }
+    v
+}
+
 fn gen_program(r: &mut Rng, thorough: bool) -> Program {
     let threads = 1 + r.weighted(&[10, 7, 3]);
     let filter = match r.weighted(&[8, 7, 5]) {
         0 => FilterSpec::All,
-        1 => {
-            let mut names = vec![];
-            for n in ALLOW_NAMES {
-                if r.chance(1, 3) {
-                    names.push(n.to_string());
-                }
-            }
-            FilterSpec::Allow(names)
-        }
+        1 => FilterSpec::Allow(gen_allowlist(r)),
         _ => {
             let m = r.range(2, 5) as u64;
             FilterSpec::Custom(m, r.below(m as usize) as u64)
@@ -918,6 +1113,7 @@ fn gen_program(r: &mut Rng, thorough: bool) -> Program {
     // flavour of the program: how often a new span is a wide one / a near-miss one, how eagerly handles are dropped
     let wide_pct = *r.pick(&[0usize, 0, 20, 50, 80]);
     let near_pct = *r.pick(&[0usize, 10, 10, 40]);
+    let uni_pct = *r.pick(&[0usize, 15, 15, 40, 70]);
     let close_w = *r.pick(&[0usize, 8, 8, 20, 35]);
     let n_ops = if thorough && r.chance(1, 4) { r.range(40, 120) } else if wide_pct >= 50 { r.range(10, 60) } else { r.range(5, 40) };
     let mut ops = vec![];
@@ -935,6 +1131,8 @@ fn gen_program(r: &mut Rng, thorough: bool) -> Program {
                     *r.pick(WIDE_SHAPES)
                 } else if r.below(100) < near_pct {
                     *r.pick(NEAR_SHAPES)
+                } else if r.below(100) < uni_pct {
+                    *r.pick(UNI_SHAPES)
                 } else {
                     r.below(12)
                 };
@@ -1024,7 +1222,8 @@ fn gen_program(r: &mut Rng, thorough: bool) -> Program {
     for t in 0..threads {
         ops.push(POp::Emit { t, how: r.below(5), name: r.pick_str(METRIC_NAMES).to_string(), labels: gen_labels(r) });
     }
-    Program { filter, threads, layer, ops }
+    let probes = gen_probes(r, &filter);
+    Program { filter, threads, layer, ops, probes }
 }
 
 // ---------------------------------------------------------------------------------------------
@@ -1055,6 +1254,7 @@ fn corpus() -> Vec<(&'static str, Program)> {
                 filter: FilterSpec::All,
                 threads: 1,
                 layer: true,
+                probes: vec![],
                 ops: vec![
                     new(0, ParSpec::Ctx, 6, vec![s("oa"), s("ob"), s("oc")]),
                     Enter { t: 0, id: 0 },
@@ -1074,6 +1274,7 @@ fn corpus() -> Vec<(&'static str, Program)> {
                 filter: FilterSpec::All,
                 threads: 1,
                 layer: true,
+                probes: vec![],
                 ops: vec![
                     new(0, ParSpec::Ctx, 3, vec![s("pa"), Val::Empty]),
                     Enter { t: 0, id: 0 },
@@ -1099,6 +1300,7 @@ fn corpus() -> Vec<(&'static str, Program)> {
                 filter: FilterSpec::All,
                 threads: 1,
                 layer: true,
+                probes: vec![],
                 ops: vec![
                     new(0, ParSpec::Root, 4, vec![s("pb"), s("pa")]),
                     new(0, ParSpec::Of(0), 6, vec![Val::Empty, Val::Empty, s("c")]),
@@ -1119,6 +1321,7 @@ fn corpus() -> Vec<(&'static str, Program)> {
                 filter: FilterSpec::Custom(2, 0),
                 threads: 1,
                 layer: true,
+                probes: vec![],
                 ops: vec![
                     new(0, ParSpec::Ctx, 1, vec![s("y")]),
                     Enter { t: 0, id: 0 },
@@ -1136,6 +1339,7 @@ fn corpus() -> Vec<(&'static str, Program)> {
                 filter: FilterSpec::All,
                 threads: 1,
                 layer: true,
+                probes: vec![],
                 ops: vec![
                     emit(0, 0, "m", &[("a", "1"), ("a", "2")]),
                     new(0, ParSpec::Ctx, 0, vec![]),
@@ -1156,6 +1360,7 @@ fn corpus() -> Vec<(&'static str, Program)> {
                 filter: FilterSpec::All,
                 threads: 1,
                 layer: true,
+                probes: vec![],
                 ops: vec![
                     new(0, ParSpec::Root, 1, vec![s("A")]),
                     new(0, ParSpec::Root, 2, vec![s("B")]),
@@ -1179,6 +1384,7 @@ fn corpus() -> Vec<(&'static str, Program)> {
                 filter: FilterSpec::All,
                 threads: 2,
                 layer: true,
+                probes: vec![],
                 ops: vec![
                     new(0, ParSpec::Ctx, 1, vec![s("t0")]),
                     Enter { t: 0, id: 0 },
@@ -1203,6 +1409,7 @@ fn corpus() -> Vec<(&'static str, Program)> {
                 filter: FilterSpec::Allow(vec!["b".into(), "k.x".into()]),
                 threads: 1,
                 layer: true,
+                probes: vec![],
                 ops: vec![
                     new(0, ParSpec::Ctx, 10, vec![s("1"), s("2"), s("3"), s("4")]),
                     Enter { t: 0, id: 0 },
@@ -1217,6 +1424,7 @@ fn corpus() -> Vec<(&'static str, Program)> {
                 filter: FilterSpec::All,
                 threads: 1,
                 layer: true,
+                probes: vec![],
                 ops: vec![
                     new(0, ParSpec::Ctx, 12, strs("va", 20)),
                     Enter { t: 0, id: 0 },
@@ -1258,6 +1466,7 @@ fn corpus() -> Vec<(&'static str, Program)> {
                 filter: FilterSpec::Allow(vec!["a".into(), "a00".into(), "b07".into()]),
                 threads: 2,
                 layer: true,
+                probes: vec![],
                 ops: vec![
                     new(1, ParSpec::Ctx, 12, strs("va", 20)),
                     Enter { t: 1, id: 0 },
@@ -1287,6 +1496,7 @@ fn corpus() -> Vec<(&'static str, Program)> {
                 filter: FilterSpec::All,
                 threads: 1,
                 layer: false,
+                probes: vec![],
                 ops: vec![
                     new(0, ParSpec::Ctx, 6, vec![s("oa"), s("ob"), s("oc")]),
                     Enter { t: 0, id: 0 },
@@ -1307,6 +1517,7 @@ fn corpus() -> Vec<(&'static str, Program)> {
                 filter: FilterSpec::Allow(vec!["A".into(), "k".into(), "a0".into(), " a".into(), "a ".into(), "k.".into(), "".into()]),
                 threads: 1,
                 layer: true,
+                probes: vec![],
                 ops: vec![
                     new(0, ParSpec::Ctx, 16, vec![s("vA"), s("vab"), s("vk"), s("va")]),
                     Enter { t: 0, id: 0 },
@@ -1321,11 +1532,86 @@ fn corpus() -> Vec<(&'static str, Program)> {
             },
         ),
         (
+            "allow-list whose longest name is multi-byte (more bytes than any listed name has characters)",
+            Program {
+                filter: FilterSpec::Allow(vec!["région".into(), "env".into()]),
+                threads: 1,
+                layer: true,
+                probes: vec![
+                    ("m".into(), "région".into(), "eu".into()),
+                    ("m".into(), "region".into(), "eu".into()),
+                    ("m".into(), "re\u{301}gion".into(), "eu".into()),
+                    ("m".into(), "env".into(), "".into()),
+                    ("m".into(), "régio".into(), "x".into()),
+                    ("m".into(), "Région".into(), "x".into()),
+                ],
+                ops: vec![
+                    new(0, ParSpec::Ctx, 18, vec![s("eu-west"), s("prod")]),
+                    Enter { t: 0, id: 0 },
+                    emit(0, 0, "m", &[]),
+                    emit(0, 1, "m", &[("env", "own")]),
+                    new(0, ParSpec::Ctx, 20, vec![s("k"), Val::Empty, s("b"), s("n")]),
+                    Enter { t: 0, id: 1 },
+                    emit(0, 2, "m", &[("région", "own")]),
+                    Rec { t: 0, id: 1, field: "région", val: s("inner") },
+                    emit(0, 0, "m", &[]),
+                ],
+            },
+        ),
+        (
+            "allow-list with a single CJK name; include-all and a custom filter over the same non-ASCII fields",
+            Program {
+                filter: FilterSpec::Allow(vec!["地域".into()]),
+                threads: 1,
+                layer: true,
+                probes: vec![
+                    ("m".into(), "地域".into(), "v".into()),
+                    ("m".into(), "地".into(), "v".into()),
+                    ("m".into(), "域地".into(), "v".into()),
+                    ("m".into(), "地域名".into(), "v".into()),
+                    ("m".into(), "abcdef".into(), "v".into()),
+                    ("m".into(), "ab".into(), "v".into()),
+                ],
+                ops: vec![
+                    new(0, ParSpec::Ctx, 19, vec![s("kanto"), s("va")]),
+                    Enter { t: 0, id: 0 },
+                    emit(0, 0, "m", &[]),
+                    new(0, ParSpec::Ctx, 21, vec![s("crab"), s("nfd"), s("nfc"), s("ku"), s("chi")]),
+                    Enter { t: 0, id: 1 },
+                    emit(0, 0, "m", &[("地", "own")]),
+                ],
+            },
+        ),
+        (
+            "allow-list mixing 1-, 2-, 3- and 4-byte characters; composed and decomposed forms are different names",
+            Program {
+                filter: FilterSpec::Allow(vec!["🦀".into(), "région".into(), "k.ü".into(), "ñ".into(), "a".into()]),
+                threads: 1,
+                layer: true,
+                probes: vec![
+                    ("m".into(), "🦀".into(), "v".into()),
+                    ("m".into(), "ñ".into(), "v".into()),
+                    ("m".into(), "n\u{303}".into(), "v".into()),
+                    ("m".into(), "k.ü".into(), "v".into()),
+                    ("m".into(), "k.u".into(), "v".into()),
+                ],
+                ops: vec![
+                    new(0, ParSpec::Ctx, 21, vec![s("crab"), s("nfd"), s("nfc"), s("ku"), s("chi")]),
+                    Enter { t: 0, id: 0 },
+                    emit(0, 0, "m", &[]),
+                    new(0, ParSpec::Ctx, 20, vec![s("k"), s("r2"), s("b"), s("n")]),
+                    Enter { t: 0, id: 1 },
+                    emit(0, 3, "m", &[("ñ", "own")]),
+                ],
+            },
+        ),
+        (
             "a field name twice in one span",
             Program {
                 filter: FilterSpec::Allow(vec![]),
                 threads: 1,
                 layer: true,
+                probes: vec![],
                 ops: vec![
                     new(0, ParSpec::Ctx, 11, vec![s("first"), s("second")]),
                     Enter { t: 0, id: 0 },
@@ -1370,6 +1656,9 @@ pub fn run(cfg: &Cfg, out: &mut Out) {
                     }
                     if NEAR_SHAPES.contains(shape) {
                         out.count("new:near-miss names");
+                    }
+                    if UNI_SHAPES.contains(shape) {
+                        out.count("new:non-ASCII field names");
                     }
                 }
                 POp::Rec { val, .. } => {
